@@ -160,8 +160,15 @@ class ProviderDispatcher(BaseProvider):
             if 'EmbeddedInstance' in prop_cls.qualifiers:
                 ei_qual = prop_cls.qualifiers['EmbeddedInstance']
                 emb_classname_cls = ei_qual.value
-                if not self.is_subclass(
-                        emb_classname_inst, emb_classname_cls, class_store):
+                try:
+                    emb_class_ok = self.is_subclass(
+                        emb_classname_inst, emb_classname_cls, class_store)
+                except KeyError:
+                    # The class of the embedded instance or the class
+                    # specified in the EmbeddedInstance qualifier does not
+                    # exist in the namespace
+                    emb_class_ok = False
+                if not emb_class_ok:
                     raise CIMError(
                         CIM_ERR_INVALID_PARAMETER,
                         _format("Property {0!A} in the instance is an embedded "
